@@ -124,12 +124,29 @@ def cli_case(rng):
         text += s.getvalue()
     gtype = rng.choice(["treebank", "leftright", "optimal"])
     lines = []
+    # encodings: the source is read in --src-enc, every output file is written in --dest-enc
+    senc, denc = rng.choice([("utf-8", "utf-8"), ("utf-8", "utf-8"), ("utf-8", "iso-8859-1"), ("iso-8859-1", "utf-8"), ("utf-8", "utf-16"),
+                             ("utf-16", "utf-8")])
     with cli.Scratch() as sc:
-        src = sc.write("tb.export", text)
+        src = sc.write("tb.export", text, encoding=senc)
         mkv = []
         if gtype != "treebank" and rng.random() < 0.5:
             mkv = ["--markov"] + rng.choice([["v:1"], ["h:1"], ["v:2", "h:1"], ["nofanout", "v:1"]])
-        rc, _, err = cli.run_cli(["grammar", src, sc.path("g1"), gtype, "--dest-format", "rcg"] + mkv)
+        rc, _, err = cli.run_cli(["grammar", src, sc.path("g0"), gtype, "--dest-format", "rcg", "--src-enc", senc, "--dest-enc", denc] + mkv)
+        if rc == 0:
+            # re-encode what was written to utf-8 for the comparisons below; a file that is not in --dest-enc is a violation
+            try:
+                for ext in (".rcg", ".lex"):
+                    with io.open(sc.path("g0") + ext, encoding=denc, newline="") as f:
+                        content = f.read()
+                    with io.open(sc.path("g1") + ext, "w", encoding="utf-8", newline="") as f:
+                        f.write(content)
+            except (UnicodeError, OSError) as e:
+                l0 = Line("pred", "P.C09.rcg", ["f", "", "", "", ""], note="output of `treetools grammar --dest-enc %s` does not decode as %s: %s" % (denc, denc, e))
+                l0.expect = "output-must-be-in-dest-enc"
+                return Case("cli", {"trees": [proto.pretty_tree(t) for t in ts], "gramtype": gtype, "src_enc": senc, "dest_enc": denc}, [l0], nontrivial=True)
+            src8 = sc.write("tb8.export", text)
+            src = src8
         if rc == 0:
             # the command line's grammar must be the API's: extract, binarize with the documented defaults (v 1, h 2)
             with quiet():
@@ -172,7 +189,7 @@ def cli_case(rng):
                 g2, l2 = grammarinput.rcg(sc.path("g1"), "utf-8")
             lines.append(Line("corr", "read_rcg", [gram.enc_lines(gl), gram.enc_lines(ll)],
                               gram.enc_grammar(g2) + " # " + gram.enc_lexicon(l2)))
-    return Case("cli", {"trees": [proto.pretty_tree(t) for t in ts], "gramtype": gtype}, lines, nontrivial=True)
+    return Case("cli", {"trees": [proto.pretty_tree(t) for t in ts], "gramtype": gtype, "src_enc": senc, "dest_enc": denc}, lines, nontrivial=True)
 
 
 def gen(seed, tier, scale):
